@@ -38,7 +38,10 @@ Inductive expr :=
 | EUse1 (a : expr)                       (* primitive-valued operator on a non-primitive operand (Länge, text index, ist ein) *)
 | EUse2 (a b : expr)                     (* ... on two operands (gleich, ungleich) *)
 | EDerive (a : expr) (n : N)             (* new n-byte temporary computed from an operand that is NOT consumed
-                                            (slice, element copy out of a temporary list, cast of a non-temporary Variable) *)
+                                            (slice, cast of a non-temporary Variable) *)
+| EElem (a : expr) (k : nat)             (* element k of the list value of a (BIN_INDEX): a reference INTO a's storage if a is a
+                                            variable; if a is a temporary the element is deep-copied into a temporary of its
+                                            own, because a reference derived from a temporary dies with that temporary's scope *)
 | EConcat (a b : expr)                   (* Text verkettet mit Text: left operand claimed (copied first if not temporary) *)
 | EBuild (n : N) (cs : exprs)            (* list/struct literal, cast to Variable/list: container of n bytes, components claimed or copied in *)
 | ECall (f : nat) (a : args)             (* DDP function f *)
@@ -245,6 +248,15 @@ Section Compile.
                        let (d, cs2) := fresh cs1 in Some (ISeq ia (INew d n), RTemp d, add_temp d false cs2)
                      | None => None
                      end
+    | EElem a k =>
+      (* compiler.go BIN_INDEX on lists: isTempLhs => deepCopyInto a new registered temporary (the list stays a
+         temporary of its scope); otherwise the element pointer with isTemp = false *)
+      match cexpr a cs with
+      | Some (ia, RTemp t, cs1) =>
+        let (d, cs2) := fresh cs1 in Some (ISeq ia (ICopy d (PPart t k)), RTemp d, add_temp d false cs2)
+      | Some (ia, RRef (PSlot s), cs1) => Some (ia, RRef (PPart s k), cs1)
+      | _ => None
+      end
     | EConcat a b =>
       match cexpr a cs with
       | Some (ia, ra, cs1) =>
